@@ -19,3 +19,21 @@ pub assume_specification<T, A: std::alloc::Allocator, I: std::iter::IntoIterator
     ensures final(v)@ == old(v)@ + iter_seq::<T, I>(i);
 pub broadcast axiom fn axiom_iter_seq_array<T, const N: usize>(a: [T; N])
     ensures #[trigger] iter_seq::<T, [T; N]>(a) == a@;
+
+// ---- proved helpers about UTF-8 views (vstd lemmas re-packaged) ----
+pub proof fn lemma_str_bytes_concat(a: Seq<char>, b: Seq<char>)
+    ensures str_bytes(a + b) == str_bytes(a) + str_bytes(b)
+{
+    vstd::utf8::encode_utf8_concat(a, b);
+}
+pub proof fn lemma_str_bytes_push_ascii(a: Seq<char>, c: char)
+    requires (c as u32) < 128
+    ensures str_bytes(a.push(c)) == str_bytes(a).push(c as u8)
+{
+    assert(a.push(c) =~= a + seq![c]);
+    vstd::utf8::encode_utf8_concat(a, seq![c]);
+    assert(vstd::utf8::is_ascii_chars(seq![c]));
+    vstd::utf8::is_ascii_chars_encode_utf8(seq![c]);
+    assert(str_bytes(seq![c]) =~= seq![c as u8]);
+    assert(str_bytes(a) + seq![c as u8] =~= str_bytes(a).push(c as u8));
+}
